@@ -675,56 +675,76 @@ def miri_cmd(flags, scenario, threads, extra_features=()):
 
 def run_miri(flags, scenario, threads, extra_features=()):
     cmd, env = miri_cmd(flags, scenario, threads, extra_features)
-    with BuildLock("miri"):
-        p = subprocess.run(cmd, cwd=MIRI_DIR, env=env, stdout=subprocess.PIPE, stderr=subprocess.STDOUT, text=True)
+    p = subprocess.run(cmd, cwd=MIRI_DIR, env=env, stdout=subprocess.PIPE, stderr=subprocess.STDOUT, text=True)
     return p.returncode, p.stdout
 
 
+def run_miri_seeds(nseeds, scenario, threads, extra_features=()):
+    """One Miri process per schedule seed, up to `workers()` at a time (Miri's own many-seeds
+    mode does not scale on this machine). Returns list of (seed, rc, output)."""
+    # build once, serially, so that the parallel invocations find everything compiled
+    rc, out = run_miri("-Zmiri-seed=0 -Zmiri-preemption-rate=0.1", scenario, threads, extra_features)
+    results = [(0, rc, out)]
+    pending = list(range(1, nseeds))
+    running = []
+    while pending or running:
+        while pending and len(running) < workers():
+            ms = pending.pop(0)
+            cmd, env = miri_cmd("-Zmiri-seed=%d -Zmiri-preemption-rate=0.1" % ms, scenario, threads, extra_features)
+            running.append((ms, subprocess.Popen(cmd, cwd=MIRI_DIR, env=env, stdout=subprocess.PIPE, stderr=subprocess.STDOUT, text=True)))
+        ms, p = running.pop(0)
+        out, _ = p.communicate()
+        results.append((ms, p.returncode, out))
+    return sorted(results)
+
+
 def check_miri(prop, tier, vseed):
-    """L3: instruction-level schedules of the crypto-less build under Miri's seeded scheduler."""
+    """L3: instruction-level schedules under Miri's seeded scheduler — the crypto-less build, and
+    the crypto-enabled code on top of the pure-Rust ring stub (sim/fakering)."""
     t0 = time.time()
-    nseeds, scenarios = (16, 1) if tier == "quick" else (128, 4)
+    nseeds, scenarios = (16, 1) if tier == "quick" else (96, 3)
     info = {"miri_seeds_per_scenario": nseeds, "scenarios": [], "schedules": 0, "preemption_rate": 0.1,
-            "oracles": ["every thread's TBS and full DER equal the sequential reference", "Miri data-race and UB detection"]}
+            "oracles": ["every thread's TBS and full DER equal the sequential reference", "returned parameters equal the input",
+                        "shared issuer unchanged", "Miri data-race and UB detection"],
+            "configurations": {"crypto-less": "real code only (rcgen, yasna, time, pem); pure-Rust remote signer",
+                               "fakering": "rcgen with the ring feature on top of sim/fakering, a STUB of ring's API (real SHA-256, "
+                                           "stand-ins for everything else): hashed key identifiers, automatic serials, local keys"}}
     unlisted = 0
-    for k in range(scenarios):
-        scenario = (vseed + k) % (1 << 32)
-        threads = 3 + (k % 2)
-        flags = "-Zmiri-many-seeds=0..%d -Zmiri-preemption-rate=0.1" % nseeds
-        rc, out = run_miri(flags, scenario, threads)
-        ok = out.count("OK scenario=")
-        info["scenarios"].append({"scenario_seed": scenario, "threads": threads, "schedules_ok": ok})
-        info["schedules"] += ok
-        if rc == 0 and ok == nseeds:
-            continue
-        if "error: could not compile" in out or ("error[" in out and "Undefined Behavior" not in out and "VIOLATION" not in out and "Data race" not in out):
-            raise HarnessError("simmiri does not build/run under Miri:\n" + out[-4000:])
-        # find the first failing Miri seed, one seed per process
-        bad = None
-        for ms in range(nseeds):
-            rc1, out1 = run_miri("-Zmiri-seed=%d -Zmiri-preemption-rate=0.1" % ms, scenario, threads)
-            if rc1 != 0:
-                bad = (ms, out1)
-                break
-        if bad is None:
-            raise HarnessError("Miri batch failed but no single seed reproduces it:\n" + out[-3000:])
-        ms, out1 = bad
-        lines = [l for l in out1.splitlines() if "VIOLATION" in l or "Undefined Behavior" in l or "Data race" in l or "panicked" in l]
-        detail = (lines[0] if lines else out1[-400:]).strip()
-        vclass = "c15-miri-" + ("data-race" if "Data race" in out1 else "ub" if "Undefined Behavior" in out1 else "mismatch")
-        os.makedirs(os.path.join(VERIF, "replays"), exist_ok=True)
-        rel = os.path.join("replays", "%s-miri-%d-%d.json" % (prop, scenario, ms))
-        with open(os.path.join(VERIF, rel), "w") as f:
-            json.dump({"property": prop, "kind": "miri", "scenario_seed": scenario, "threads": threads, "miri_seed": ms,
-                       "miri_flags": "-Zmiri-seed=%d -Zmiri-preemption-rate=0.1" % ms,
-                       "violation": {"class": vclass, "detail": detail}}, f, indent=1)
-        k_ = match_known(prop, vclass, detail, {})
-        if k_:
-            log("KNOWN-FINDING: property=%s %s" % (prop, k_.get("what", "")))
-        else:
-            log("  violation class=%s scenario=%d miri_seed=%d: %s" % (vclass, scenario, ms, detail[:300]))
-            log("VIOLATION property=%s replay=%s" % (prop, rel))
-            unlisted += 1
+    with BuildLock("miri"):
+        for config, feats in (("crypto-less", ()), ("fakering", ("fakering",))):
+            for k in range(scenarios):
+                scenario = (vseed + k) % (1 << 32)
+                threads = 3 + (k % 2)
+                res = run_miri_seeds(nseeds, scenario, threads, feats)
+                ok = sum(1 for _, rc, out in res if rc == 0 and "OK scenario=" in out)
+                info["scenarios"].append({"configuration": config, "scenario_seed": scenario, "threads": threads, "schedules_ok": ok})
+                info["schedules"] += ok
+                bad = [(ms, out) for ms, rc, out in res if rc != 0]
+                if not bad:
+                    continue
+                ms, out1 = bad[0]
+                if "VIOLATION" not in out1 and "Undefined Behavior" not in out1 and "Data race" not in out1 and "panicked" not in out1:
+                    raise HarnessError("simmiri[%s] does not build/run under Miri:\n%s" % (config, out1[-4000:]))
+                lines = [l for l in out1.splitlines() if "VIOLATION" in l or "Undefined Behavior" in l or "Data race" in l or "panicked" in l]
+                detail = (lines[0] if lines else out1[-400:]).strip()
+                vclass = "c15-miri-" + ("data-race" if "Data race" in out1 else "ub" if "Undefined Behavior" in out1 else "mismatch")
+                os.makedirs(os.path.join(VERIF, "replays"), exist_ok=True)
+                rel = os.path.join("replays", "%s-miri-%s-%d-%d.json" % (prop, config, scenario, ms))
+                with open(os.path.join(VERIF, rel), "w") as f:
+                    json.dump({"property": prop, "kind": "miri", "configuration": config, "features": list(feats), "scenario_seed": scenario,
+                               "threads": threads, "miri_seed": ms, "miri_flags": "-Zmiri-seed=%d -Zmiri-preemption-rate=0.1" % ms,
+                               "violation": {"class": vclass, "detail": detail}}, f, indent=1)
+                # a second run of the same seed in a fresh process must fail the same way
+                rc2, out2 = run_miri("-Zmiri-seed=%d -Zmiri-preemption-rate=0.1" % ms, scenario, threads, feats)
+                if rc2 == 0:
+                    raise HarnessError("Miri seed %d failed once and passed on replay: scheduler not deterministic" % ms)
+                k_ = match_known(prop, vclass, detail, {})
+                if k_:
+                    log("KNOWN-FINDING: property=%s %s" % (prop, k_.get("what", "")))
+                else:
+                    log("  violation class=%s [%s] scenario=%d miri_seed=%d: %s" % (vclass, config, scenario, ms, detail[:300]))
+                    log("VIOLATION property=%s replay=%s" % (prop, rel))
+                    unlisted += 1
     info["wall_s"] = round(time.time() - t0, 1)
     return info, unlisted
 
@@ -732,7 +752,7 @@ def check_miri(prop, tier, vseed):
 def replay_miri(path):
     with open(path) as f:
         r = json.load(f)
-    rc, out = run_miri(r["miri_flags"], r["scenario_seed"], r["threads"])
+    rc, out = run_miri(r["miri_flags"], r["scenario_seed"], r["threads"], tuple(r.get("features", [])))
     sys.stdout.write(out[-3000:])
     if rc != 0:
         log("VIOLATION property=%s replay=%s" % (r["property"], path))
@@ -1077,6 +1097,55 @@ def check_c16(tier):
 CHECKS = {"C20": check_c20, "C01": check_c01, "C15": check_c15, "C16": check_c16, "C18": check_c18}
 
 
+def selftest_determinism(n_runs):
+    """Runs many run seeds per engine twice each (separate processes) at 1, 4 and 16 workers and
+    diffs the per-run event-log hashes. Any difference is a harness failure."""
+    R = ["ring", "pem", "x509-parser"]
+    N = ["pem", "x509-parser"]
+    shim_env = {"LD_PRELOAD": build_shim(), "DETSYS_RAND_SEED": str(seed())}
+    cases = [
+        ("dn-sim", "small", R, None, n_runs * 4), ("dn-sim", "wide", R, None, n_runs * 2),
+        ("sign-sim", "plain", R, None, n_runs), ("sign-sim", "faults", R, None, n_runs), ("sign-sim", "enum", R, None, n_runs // 4),
+        ("sign-sim", "rng", R, shim_env, n_runs), ("sign-sim", "enum-rng", R, shim_env, n_runs // 4),
+        ("sign-sim", "faults", N, None, n_runs),
+        ("purity-hist", "default", R, None, n_runs), ("purity-shuttle", "default", R + ["shuttle"], None, n_runs // 4),
+        ("replica-sim", "three:1:1", R, None, n_runs), ("replica-sim", "two:1:1", R, None, n_runs),
+    ]
+    bad = 0
+    for engine, mode, feats, env, n in cases:
+        n = max(n, 16)
+        binary = build_simnode(feats, hook=True)
+        digests = {}
+        for w in (1, 4, 16, 7):
+            b = run_batch(binary, engine, mode, "quick", n, seed(), nworkers=w, env_extra=env)
+            digests[w] = (b.log_digest(), b.runs)
+        ref = digests[1]
+        ok = all(d[0] == ref[0] for d in digests.values())
+        log("%-15s %-10s [%s] runs=%d workers 1/4/16/7: %s" % (engine, mode, feat_tag(feats), n, "identical" if ok else "DIFFERENT"))
+        if not ok:
+            bad += 1
+            for w, d in digests.items():
+                diff = [r for r, q in zip(d[1], ref[1]) if r != q][:3]
+                if diff:
+                    log("   workers=%d first differing runs: %s" % (w, diff))
+    # cli-sim (ring build under the shim is byte-deterministic)
+    clisim = build_tool("clisim")
+    cli, err = build_cli("ring")
+    if cli:
+        env = cli_env("ring", cli)
+        ds = []
+        for w in (1, 8, 16):
+            b = run_batch(clisim, "cli-sim", "mixed", "quick", max(n_runs // 2, 16), seed(), nworkers=w, env_extra=env)
+            ds.append(b.log_digest())
+        ok = len(set(ds)) == 1
+        log("%-15s %-10s [ring cli] workers 1/8/16: %s" % ("cli-sim", "mixed", "identical" if ok else "DIFFERENT"))
+        bad += 0 if ok else 1
+    if bad:
+        raise HarnessError("%d engine(s) are not deterministic" % bad)
+    log("determinism self-test passed")
+    return 0
+
+
 def setup_build():
     """setup_cmd: pre-build everything the quick checks need (they rebuild incrementally anyway)."""
     t0 = time.time()
@@ -1150,6 +1219,11 @@ def main(argv):
             return replay(argv[1])
         if argv[0] == "build":
             return setup_build()
+        if argv[0] == "selftest":
+            n = 200
+            if "--runs" in argv:
+                n = int(argv[argv.index("--runs") + 1])
+            return selftest_determinism(n)
         if argv[0] in CHECKS:
             tier = argv[1] if len(argv) > 1 else os.environ.get("VERIF_TIER", "quick")
             if tier not in ("quick", "thorough"):
